@@ -245,7 +245,8 @@ def render_fragment(rng, m, part, desc, ring_style='low', desc_pos='after'):
                 sym = ''
             dg += sym + mk_text(mk)
         ch = tree_children[a]
-        late = desc_pos == 'after_branches' and len(ch) >= 2
+        paren_all = desc_pos == 'after_branches' and len(ch) >= 1 and rng.random() < 0.5
+        late = desc_pos == 'after_branches' and (len(ch) >= 2 or paren_all)
         if desc_pos == 'before':
             # a %nn marker directly after ']' is fine; descriptor first, digits after
             t += dtext + dg
@@ -256,13 +257,15 @@ def render_fragment(rng, m, part, desc, ring_style='low', desc_pos='after'):
         for k, c in enumerate(ch):
             o = sub.edges[a, c]['order']
             sym = ORDER_SYM[o]
-            if k < len(ch) - 1:
+            if k < len(ch) - 1 or paren_all:
                 t += '(' + sym + emit(c) + ')'
             else:
                 if late:
                     # after the closed branches the descriptor belongs to the atom they hang on
                     t += dtext
                 t += sym + emit(c)
+        if late and paren_all:
+            t += dtext
         return t
     return emit(start, True), order_list
 
